@@ -21,6 +21,7 @@ DOC = {
         'C02.R4': 'no mutating primitive reachable from run_script has a mutated-path argument with role KEEP',
         'C02.R5': 'the regular-file filter and the length filter run before FileSubGroup::group on every path',
         'C02.R6': 'for HardLink and RefLink the group is partitioned by device before partition()',
+        'C02.R10': 'no file outside the reported groups is touched because a path was read back as another name: the path (and base dir) payload of a report line reaches the decoder without a white-space trim, directly or through an adaptor (re-evaluates C10.R2)',
         'C02.R9': 'several reported paths may be one and the same thing: (i) a symbolic link is never relied upon to hold the data (the metadata follow links, so with -S a link looks like a regular file): partition adds a sub-group with a real file to the retained set when that set consists of links only; the replica count compared with n excludes link-only sub-groups; dedupe_script links to a retained real file (none -> no link commands); a link is moved by copying; (ii) a sub-group is kept when more reported paths share its file id than the file has links (aliases through a symlinked / bind-mounted parent)',
         'C02.R8': 'the sub-groups that partition keeps or drops as a whole are formed as documented: by root first, then by file identifier (hard links, symlink + target), else singletons (re-evaluates C06.R4, C06.R5 on FileSubGroup::group, which dedupe::partition calls)',
         'C02.R7': 'the modification check covers the whole group, including the files that will be retained (re-evaluates C04.R1, C04.R2, C04.R3)',
@@ -40,6 +41,11 @@ def run(ctx):
     r7(ctx)
     r8(ctx)
     r9(ctx)
+    # the files a dedupe command acts on are the files the report names: the path payload of a report line is decoded without any trimming
+    from .common import reevaluate
+    from . import c10
+    lib_ = ctx.lib
+    reevaluate(ctx, 'C02.R10', c10.r2, lib_, lib_.body(c10.RH), lib_.body(c10.TI + 'read_paths'))
     from .common import run_mandatory
     run_mandatory(ctx, 'C02')
 
